@@ -34,8 +34,40 @@ var registry = map[string]*Property{}
 // Register adds a property.
 func Register(p *Property) { registry[p.ID] = p }
 
-// Get returns the property with the id.
-func Get(id string) *Property { return registry[id] }
+type extension struct {
+	run     func(c *core.Check)
+	mutants []Mutant
+}
+
+var extensions = map[string][]extension{}
+var extended = map[string]bool{}
+
+// Extend adds further rules (and their positive controls) to a registered property;
+// used for rules added after a seeded change showed a gap. Order of init() does not matter.
+func Extend(id string, run func(c *core.Check), mutants ...Mutant) {
+	extensions[id] = append(extensions[id], extension{run, mutants})
+}
+
+// Get returns the property with the id (with its extensions applied).
+func Get(id string) *Property {
+	p := registry[id]
+	if p == nil || extended[id] {
+		return p
+	}
+	extended[id] = true
+	base := p.Run
+	exts := extensions[id]
+	p.Run = func(c *core.Check) {
+		base(c)
+		for _, e := range exts {
+			e.run(c)
+		}
+	}
+	for _, e := range exts {
+		p.Mutants = append(p.Mutants, e.mutants...)
+	}
+	return p
+}
 
 // IDs lists the registered ids.
 func IDs() []string {
